@@ -100,6 +100,9 @@ def oracle(ck, extended):
         (lh, lw), hsz = pyramid_shapes(rng.randint(2, 22), rng.randint(2, 22), J)
         low = gen.int_tensor(rng, (1, 1, lh, lw), 3); highs = [gen.int_tensor(rng, (1, 1, 6, a, b_, 2), 3) for a, b_ in hsz]
         rt.guard(ck, oracle_inv, ck, bt, qt, bt, qt, low, highs, 'integer filters')
+    # deterministic witness of the recorded finding (12x20 image, J=3, level 2 absent)
+    g_w = dt_filters(rng); (lh_w, lw_w), hsz_w = pyramid_shapes(12, 20, 3)
+    rt.guard(ck, oracle_absent, ck, g_w, gen.int_tensor(rng, (1, 1, lh_w, lw_w), 3), [gen.int_tensor(rng, (1, 1, 6, a, b_, 2), 3) for a, b_ in hsz_w], {'h2'}, 'None', 12, 20)
     # absent inputs: every non-empty proper subset for J <= 3 on a few sizes, both spellings
     sizes = [(16, 16), (12, 20), (10, 14), (9, 7)] if q else [(16, 16), (12, 20), (10, 14), (9, 7), (32, 24), (6, 6), (22, 18), (5, 12)]
     for (H, W) in sizes:
